@@ -63,6 +63,8 @@ Apply(opr, oo) ==
     [] opr[1] = "imul" -> [oo EXCEPT ![s] = IMulR(r, Opd(oo, opr[3], opr[4]))]
     [] opr[1] = "iadd_scalar" -> [oo EXCEPT ![s] = IAddScalarR(r, opr[3])]
     [] opr[1] = "imul_scalar" -> [oo EXCEPT ![s] = IMulScalarR(r, opr[3])]
+    [] opr[1] = "isub_scalar" -> [oo EXCEPT ![s] = ISubScalarR(r, opr[3])]
+    [] opr[1] = "idiv" -> [oo EXCEPT ![s] = IDivR(r, opr[3])]
     [] opr[1] = "ipow" -> [oo EXCEPT ![s] = IPowR(r, ItemsOf(r.ts), opr[3])]
     [] opr[1] = "clear" -> [oo EXCEPT ![s] = ClearR(r)]
     [] opr[1] = "refresh" -> [oo EXCEPT ![s] = RefreshR(r)]
@@ -80,7 +82,7 @@ Apply(opr, oo) ==
     [] opr[1] = "div" -> [oo EXCEPT ![opr[4]] = DivR(r, opr[3])]
     [] opr[1] \in {"ctor", "info"} -> [oo EXCEPT ![opr[3]] = CopyR(r)]
     [] OTHER -> oo
-KnownOp(opr) == opr[1] \in {"setitem", "augadd", "iadd", "isub", "update", "imul", "iadd_scalar", "imul_scalar", "ipow",
+KnownOp(opr) == opr[1] \in {"setitem", "augadd", "iadd", "isub", "update", "imul", "iadd_scalar", "imul_scalar", "isub_scalar", "idiv", "ipow",
                             "clear", "refresh", "copy", "new", "setmap", "addcons", "toenum", "bin", "binscalar", "neg", "pow", "div",
                             "value", "mulraise", "poke", "ctor", "info"}
 
